@@ -20,6 +20,22 @@ def pool_fee(protocol, swap, burn, extra=()):
               extra_fees=Vc([fee(x) for x in extra]))
 
 
+# fee configurations of the worlds whose fees are concrete (the swap-accounting obligations of C03/C04/C13 use fully symbolic fees instead):
+# the quick tier takes the one selected by VERIF_SEED, the thorough tier all of them
+FEE_OPTIONS = [(10 ** 15, 2 * 10 ** 15, 0, ()), (10 ** 15, 2 * 10 ** 15, 10 ** 15, (10 ** 15,)), (0, 0, 0, ()),
+               (5 * 10 ** 16, 10 ** 17, 3 * 10 ** 16, (10 ** 16, 5 * 10 ** 15))]
+
+
+def param_fees(I):
+    o = I.param('fees', FEE_OPTIONS)
+    return pool_fee(o[0], o[1], o[2], o[3])
+
+
+def fees_of_model(m):
+    o = FEE_OPTIONS[m.get('_choices', {}).get('param:fees', 0)]
+    return (o[0], o[1], o[2], list(o[3]))
+
+
 def sym_fees(I, n_extra=0, prefix='', validate=True):
     """symbolic fee shares accepted by the real PoolFee::is_valid (executed from the dependency's MIR)"""
     p = I.sym(prefix + 'protocol_fee', hi=U128)
@@ -322,3 +338,14 @@ def abstract_compute_swap(I, args):
 
 ABSTRACT_PRICING = {'pool-manager::compute_swap': abstract_compute_swap}
 ABSTRACT_PRICING_NOTE = 'compute_swap replaced by an uninterpreted function of (reserves, decimals, pool type, fees, offer, ask denom): same arguments => same result, Ok/Err included'
+
+
+# ---------------------------------------------------------------- router messages
+
+def swap_op(tin, tout, pool_id):
+    return mk_enum('mantra_dex_std::pool_manager::SwapOperation', 'MantraSwap', token_in_denom=tin, token_out_denom=tout, pool_identifier=pool_id)
+
+
+def route_msg(ops, minimum=None, receiver=None, max_slippage=None):
+    return mk_enum('mantra_dex_std::pool_manager::ExecuteMsg', 'ExecuteSwapOperations', operations=Vc(ops),
+                   minimum_receive=minimum or NONE(), receiver=receiver or NONE(), max_slippage=max_slippage or NONE())
